@@ -127,16 +127,21 @@ Definition is_read (o : op) : bool :=
 Theorem reads_total s o op_ : Inv s -> Inv o -> wf_op op_ = true -> is_read op_ = true ->
   abs (fst (m_step s o op_)) = abs s /\
   ((exists x, snd (m_step s o op_) = Ok x) \/
-   (exists k, op_ = GetItem k /\ has_key (abs s) k = false /\ snd (m_step s o op_) = Raise KeyError)).
+   (exists k, op_ = GetItem k /\ has_key (abs s) k = false /\ snd (m_step s o op_) = Raise KeyError) \/
+   (op_ = Inverted /\ existsb unhashable (map snd (abs s)) = true /\ snd (m_step s o op_) = Raise TypeError)).
 Proof.
   intros Hs Ho Hwf Hr. destruct (m_step_refines s o op_ Hs Ho Hwf) as [_ H].
   destruct (m_step s o op_) as [s' x]. simpl in *.
   destruct op_; try discriminate Hr; simpl in H;
     try (inversion H; split; [congruence | left; eexists; reflexivity]).
-  (* GetItem *)
-  destruct (has_key (abs s) k) eqn:E; inversion H; split; try congruence.
-  - left. eexists. reflexivity.
-  - right. exists k. repeat split; assumption || reflexivity.
+  - (* GetItem *)
+    destruct (has_key (abs s) k) eqn:E; inversion H; split; try congruence.
+    + left. eexists. reflexivity.
+    + right. left. exists k. repeat split; assumption || reflexivity.
+  - (* Inverted *)
+    destruct (existsb unhashable (map snd (abs s))) eqn:E; inversion H; split; try congruence.
+    + right. right. repeat split; reflexivity.
+    + left. eexists. reflexivity.
 Qed.
 
 (* ---- agree => holds: the checker's two walks coincide on well-formed histories ------------ *)
